@@ -1,9 +1,5 @@
 package driver
 
-type ConcurrentConfig struct{}
-
-func RunConcurrent(reg Registry, rec *Recorder, g Group) {}
-
 // RunIface reports, per operation, the distinct concrete package types implementing its response interface.
 func RunIface(reg Registry, rec *Recorder) {
 	ops, err := Ops(reg)
